@@ -42,6 +42,13 @@ CHECKS = {
         note="Trusted: the model's transition rule (DESIGN.md 3/C10; validated on the unchanged tree at every step of every history), the label canonicaliser for registry contents, fork() giving a pristine registry state per history. Single inheritance only. There is no clock, channel or scheduler in this property: the simulated nondeterminism is the order of operations, the faults are failing registrations.",
         technique="deterministic simulation of registration histories (fork-per-history world, failing registrations) with step-by-step refinement against an executable registry model; short histories enumerated",
         quick_timeout=900, thorough_timeout=10800),
+    "C11": dict(
+        category="exploration",
+        text="Histories of API calls inside one process, decided by a seeded scheduler over a pool of ~40 documents (valid, invalid at every stage, %YAML / %TAG directives, handles used without declaration, anchors defined / used without definition, recursive, merge keys), 17 values (plain, shared, recursive, custom class, unrepresentable) and well- and ill-formed event lists, through all shipped loader / dumper classes of both back-ends. Step kinds: complete call; call whose stream raises at a chosen read / write index; call interrupted by an exception raised from a trace function at a chosen line of lib/yaml (what a signal handler does); generator calls started, advanced, closed, thrown into or dropped in a scheduler-chosen interleaving; dump_all whose documents iterable makes another call between documents; a constructor that makes a re-entrant call. Oracle: every observation equals the isolated reference of the same operation (executed alone in a child forked from a pristine process), and the digest of all module- and class-level state of the yaml package after every step equals the digest before the history. Stream clause: load_all / compose_all / parse / scan of concatenated explicit documents gives per document what the document gives alone (marks shifted), an invalid document ends the stream with its isolated error after exactly the earlier items; dump_all([v1..vn]) gives per document the events (anchors, tags, directives) of dump_all([vi]). Seeded exploration is the right level: leaks show only for particular orders of particular operations, and the space of histories is unbounded.",
+        design_ref="DESIGN.md section 3, C11",
+        note="Trusted: fork() from a process that imported yaml and made no call as the pristine world, the canonicaliser and global-state digest (sim/observe.py), sys.settrace line events as interruption points (Python frames only: LibYAML itself cannot be interrupted). The interrupted call itself is not compared, only everything after it. Thread interleavings are not simulated (no thread-safety contract; the property speaks of preceding calls).",
+        technique="deterministic simulation of call histories: seeded scheduler over complete / stream-faulted / line-interrupted / generator-interleaved / re-entrant calls, isolated-fork reference results and global-state digest as oracles",
+        quick_timeout=900, thorough_timeout=10800),
     "C16": dict(
         category="exploration",
         text="The nondeterminism C16 names - hash randomisation, process identity (object addresses) and insertion order - is put under the simulator's control: every seeded value recipe (C02 universe; keys of one mapping / set from one mutually comparable family; shared and recursive containers; sets of strings whose iteration order really varies) is built and dumped in 3-4 persistent worker interpreters that differ only in PYTHONHASHSEED (8 values, two derived from VERIF_SEED) and in a seeded amount of junk allocation, under 1-3 insertion permutations, with seeded option sets and SafeDumper / CSafeDumper / Dumper / CDumper. Checked: text byte-identical across interpreters; with sort_keys also across permutations; without sort_keys a loader sees insertion order; dump(load(t)) identical across interpreters and equal to t whenever the round trip is exact (guarded fixed point, anchors included); dump(load(t), sort_keys=False) == t (document order kept by load). Sampling is the right level: these are relations over pairs of runs on an unbounded value space; what matters is that each run really differs in the controlled dimension, which the reach probe (set iteration order differed between interpreters) measures.",
